@@ -89,7 +89,7 @@ URLS = [
     "\\(x", "&amp;x", "javascript:alert(1)", "JAVASCRIPT:x", "data:image/png;base64,AA", "data:text/html,x",
     "vbscript:x", "file:///etc", "&#106;avascript:x", "java\\script:x", "http://ex.com/\"q\"", "/u<v>",
     "/a*b*c", "/a_b_", "http://xn--n3h.net/", "http://☃.net/", "http://a.b/[c]", "/%", "/%2", "/%25",
-    "mailto:a@b.c", "http://[::1]/", "http://a.b:80/", "/\u00a0", "", "<", ">", "/a\\b", "/'q'",
+    "mailto:a@b.c", "http://xn--a-rc4g.com", "http://xn--xn.com/", "https://xn--1.example", "http://xn--γ.com/", "mailto:a@xn--a-rc4g.com", "//xn--a-rc4g.com/p", "http://[::1]/", "http://a.b:80/", "/\u00a0", "", "<", ">", "/a\\b", "/'q'",
 ]
 TITLES = ["t", "a b", 'q"r', "it's", "(p)", "a\\\"b", "&quot;e", "*e*", "<b>", "a\nb", "", "\\", "&amp;", "  s  "]
 HTML_INLINE = [
@@ -226,7 +226,7 @@ def inline_atom(d: D, depth: int, oneline: bool) -> str:
     if k == "autolink":
         j = d.i(0, 5)
         if j < 3:
-            return "<" + d.pick(SCHEMES) + ":" + d.pick(["//a.b/c", "x", "a\"b\"", "a'b'", "a*b*", "a b", "", "//a.b/<", "a\\b", "%41&amp;"]) + ">"
+            return "<" + d.pick(SCHEMES) + ":" + d.pick(["//a.b/c", "//xn--a-rc4g.com", "//xn--xn.com/", "//xn--n3h.net/", "//xn--γ.com/", "a@xn--1.b", "x", "a\"b\"", "a'b'", "a*b*", "a b", "", "//a.b/<", "a\\b", "%41&amp;"]) + ">"
         if j == 3:
             return "<" + d.pick(["a@b.c", "a.b-c_d@e.f", "a@b", "@", "a+b@c.d.e", "a\\@b.c"]) + ">"
         return "<" + word(d) + ">"
